@@ -443,6 +443,9 @@ func runC13(res *Result, tier string, rnd *Rand, replay string) {
 		if mstr(rep, "error") != "" {
 			if o.err == "" {
 				res.Disagree(Disagreement{Input: o.c, What: "model reports a missing call target, implementation returned a diagram", Model: rep})
+				// whatever is returned as a diagram has to be one: participants, blocks and activations are checked
+				// on it all the same (the arrows are not: the call tree has no arrow for a target that is not there)
+				c13Direct(res, o.c, evs, head, headCount, ref, true)
 			}
 			res.Count("missing-target-error")
 			continue
